@@ -200,6 +200,9 @@ type Reply struct {
 	// body), as a middleware in front of the backend (Server-Timing, tracing) would add them -
 	// also for protocols that carry their own trailers elsewhere.
 	ExtraHTTPTrailer http.Header
+	// FlushAfterHeader calls Flush right after WriteHeader, before any body byte (what a
+	// streaming-minded handler or a reverse proxy with FlushInterval does).
+	FlushAfterHeader bool
 }
 
 // Backend is a scripted http.Handler that records what it saw.
@@ -275,6 +278,11 @@ func WriteReply(w http.ResponseWriter, rep *Reply, errs *[]string) {
 		}
 	}
 	w.WriteHeader(out.Status)
+	if rep.FlushAfterHeader {
+		if fl, ok := w.(http.Flusher); ok {
+			fl.Flush()
+		}
+	}
 	body := out.Body
 	limit := len(body)
 	early := false
